@@ -528,6 +528,52 @@ def const_of(v):
     return False, None
 
 
+def fingerprint(v, _depth=0):
+    """Hashable description of an abstract value, equal only for values that are certainly equal (same constants, same terms,
+    built the same way from such parts); None when the value was not followed that far."""
+    if _depth > 6 or v is None:
+        return None
+    ok, c = const_of(v)
+    if ok:
+        try:
+            hash(c)
+            return ("c", type(c).__name__, c)
+        except TypeError:
+            return None
+    fp = getattr(v, "fp", None) or (getattr(v.obj, "fp", None) if isinstance(v, VList) else None)
+    if fp is not None:
+        return fp
+    if isinstance(v, VUnknown) and getattr(v, "elem", None) is not None and not callable(v.elem) and getattr(v, "source", None) is not None:
+        # a generator expression / comprehension over a followed iterable: its generic item, for each item of that iterable
+        el, src = fingerprint(v.elem, _depth + 1), fingerprint(v.source, _depth + 1)
+        return ("each", el, src) if el is not None and src is not None else None
+    if isinstance(v, VUnknown) and str(v.tag).startswith("elem@") and _depth > 0:
+        return ("generic-item", v.tag)  # only meaningful inside an ("each", item, source) description
+    if isinstance(v, (VTens, VNum)):
+        t = getattr(v, "term", None)
+        return ("t", t) if t is not None else None
+    if isinstance(v, VTuple):
+        parts = [fingerprint(x, _depth + 1) for x in v.items]
+        return None if any(p is None for p in parts) else ("tuple",) + tuple(parts)
+    if isinstance(v, VList):
+        o = v.obj
+        if o.items is not None:
+            parts = [fingerprint(x, _depth + 1) for x in o.items]
+            return None if any(p is None for p in parts) else ("list",) + tuple(parts)
+        el = fingerprint(getattr(o, "elem", None), _depth + 1)
+        src = fingerprint(getattr(o, "source", None), _depth + 1) or fingerprint(getattr(o, "comp_src", None), _depth + 1)
+        if src is None and isinstance(getattr(o, "comp_iter", None), tuple):
+            try:
+                hash(o.comp_iter)
+                src = ("count", o.comp_iter)
+            except TypeError:
+                src = None
+        return ("each", el, src) if el is not None and src is not None else None
+    if isinstance(v, VUnknown) and getattr(v, "term", None) is not None:
+        return ("u", v.kind, v.term)
+    return None
+
+
 def dict_key(v):
     """Hashable abstract key of a dict subscript: python constant when known, else a symbolic key that is
     equal for equal abstract values (same term / same tag)."""
@@ -549,6 +595,9 @@ def dict_key(v):
         return all(k[0] for k in ks), tuple(k[1] for k in ks)
     if isinstance(v, VNum) and v.term is not None:
         return False, ("sym", repr(v.term))
+    fp = fingerprint(v)
+    if fp is not None:
+        return False, ("fp", fp)
     if isinstance(v, VUnknown):
         return False, ("sym", v.tag)
     return False, ("sym", "obj%d" % id(v))
